@@ -102,7 +102,7 @@ def main():
         ex = {}
         for c in crates:
             extra_p = " -p watchexec-filterer-ignore" if c == "watchexec-filterer-globset" else ""
-            rc, out, dt = sh("cargo test -p %s" + extra_p + " --offline 2>&1 | grep -E '^test result|FAILED|failed|panicked' | head -30" % c, timeout=2400)
+            rc, out, dt = sh(("cargo test -p %s" % c) + extra_p + " --offline 2>&1 | grep -E '^test result|FAILED|failed|panicked' | head -30", timeout=2400)
             fails = [l for l in out.splitlines() if "FAILED" in l or ("failed" in l and "0 failed" not in l)]
             ex[c] = {"ok": not fails, "summary": out[-1500:], "wall_s": round(dt)}
         res["existing_tests"] = ex
